@@ -432,3 +432,11 @@ mod tests {
         assert_eq!(recase("XMLHttpRequest", Style::Train), "Xml-Http-Request");
     }
 }
+
+/// canonical form of a spelling *set* (the statements speak of "the set of spellings")
+pub fn as_set(v: &[String]) -> Vec<String> {
+    let mut x = v.to_vec();
+    x.sort();
+    x.dedup();
+    x
+}
